@@ -62,7 +62,7 @@ type Proxy struct {
 	mitm         *mitm.Config
 	proxyURL     *url.URL
 	conns        sync.WaitGroup
-	connsMu      sync.Mutex // protects conns.Add/Wait from concurrent access
+	connsMu      sync.Mutex // orders conns.Add before close(closing)
 	closing      chan bool
 
 	reqmod RequestModifier
@@ -150,12 +150,15 @@ func (p *Proxy) SetDial(dial func(string, string) (net.Conn, error)) {
 func (p *Proxy) Close() {
 	log.Infof("martian: closing down proxy")
 
+	// Nothing is added to conns once closing is closed (see Serve), so waiting
+	// needs no lock: a connection that the accept loop takes meanwhile is closed
+	// there at once instead of queueing behind the shutdown.
+	p.connsMu.Lock()
 	close(p.closing)
+	p.connsMu.Unlock()
 
 	log.Infof("martian: waiting for connections to close")
-	p.connsMu.Lock()
 	p.conns.Wait()
-	p.connsMu.Unlock()
 	log.Infof("martian: all connections closed")
 }
 
@@ -224,6 +227,16 @@ func (p *Proxy) Serve(l net.Listener) error {
 			return err
 		}
 		delay = 0
+		// The handler is counted here, before anything else happens, and only
+		// while the proxy is not closing: Close waits for every connection counted.
+		p.connsMu.Lock()
+		if p.Closing() {
+			p.connsMu.Unlock()
+			conn.Close()
+			return nil
+		}
+		p.conns.Add(1)
+		p.connsMu.Unlock()
 		log.Debugf("martian: accepted connection from %s", conn.RemoteAddr())
 
 		if tconn, ok := conn.(*net.TCPConn); ok {
@@ -235,10 +248,8 @@ func (p *Proxy) Serve(l net.Listener) error {
 	}
 }
 
+// handleLoop serves a connection that Serve has counted in p.conns.
 func (p *Proxy) handleLoop(conn net.Conn) {
-	p.connsMu.Lock()
-	p.conns.Add(1)
-	p.connsMu.Unlock()
 	defer p.conns.Done()
 	defer conn.Close()
 	if p.Closing() {
